@@ -22,8 +22,8 @@ RULE = ('Two engines. (1) NEAR-VALID (this part, Hypothesis): a valid multi-modu
         'format-number patterns, huge xsl:number values and formats), nest the template body up to 1.5*10^3 deep (the cost is quadratic in the depth), insert raw bytes (NUL, C0/C1, '
         'invalid UTF-8, lone surrogates as CESU), change the encoding declaration, hostile top-level parameter expressions; the same for the '
         'source document. Every case is run through XalanTransformer (stream and compiled/parsed forms) in the ASan+UBSan driver with asserts '
-        'on. Oracle: the call returns; rc == 0, or rc != 0 with a non-empty error message; no exception escapes; no sanitizer/assert report; a '
-        'follow-up known-good transformation ON THE SAME transformer gives the expected bytes; LeakSanitizer finds no new unreachable block '
+        'on. Oracle: the call returns; rc == 0, or rc != 0 with a non-empty error message; no exception escapes; no sanitizer/assert report; '
+        'the same request run a second time ON THE SAME transformer returns the same status and a follow-up known-good transformation (count, xsl:number, sort, key) on it gives the expected bytes; LeakSanitizer finds no new unreachable block '
         'after the case. XPath cases go through all evaluator entry points; errors must be reported as errors. A hang / runaway allocation is '
         'INCONCLUSIVE for transformations (a mutated XSLT program may legitimately not terminate) and a failure for XPath evaluation. '
         'Non-trivial: the damaged input got past XML parsing (it was compiled or executed: success, or an XSLT/XPath-level error). '
@@ -52,6 +52,7 @@ PARAM_VALUES = ['$undefined', '$tp', '$np', '$g0', '$g1', '$undefined + 1', 'con
                 "key('ka', 'x')", "key('nokey', 1)", "id('i1')", 'generate-id()', "document('')", "document('ext.xml')", "document('ext.xml')//@*", 'name()', 'string(.)',
                 'count(//node())', 'sum(//@n)', "system-property('xsl:vendor')", "unparsed-entity-uri('x')", "e:node-set('x')", 'e:node-set(/)', "format-number(1, '0')",
                 "'x'", '1', '-0', '1 div 0', 'true()', "''", '/..', '(//*)[1]/namespace::*']
+FOLLOWUP_OUT = '<ok>3</ok><n>2-1.1-2;3-1.2-2;1-1-1;</n>'   # of the driver's known-good follow-up transformation (count, xsl:number any/multiple, sort, key)
 XSLT_NAMES = ['template', 'apply-templates', 'apply-imports', 'call-template', 'for-each', 'value-of', 'copy', 'copy-of', 'element', 'attribute', 'attribute-set', 'text', 'comment',
               'processing-instruction', 'if', 'choose', 'when', 'otherwise', 'variable', 'param', 'with-param', 'number', 'key', 'import', 'include', 'strip-space', 'preserve-space',
               'output', 'namespace-alias', 'decimal-format', 'sort', 'message', 'fallback', 'stylesheet', 'transform', 'nosuch']
@@ -376,7 +377,7 @@ def check(ctx, case):
     xml = files['doc.xml']
     fields = [('res', k.encode('ascii') + b'\0' + v) for k, v in files.items()]
     fields += [('param', ('%s\x1fexpr\x1f%s' % (k, v)).encode('utf-8', 'surrogatepass')) for k, v in sorted(params.items())]
-    kw = dict(xsl=xsl, xml=xml, xmlsys='file:///vmem/doc.xml', followup=1)
+    kw = dict(xsl=xsl, xml=xml, xmlsys='file:///vmem/doc.xml', followup=2)
     if case['form'] == 'compiled':
         kw['xslform'] = 'compiled'
     elif case['form'] in ('parsed-native', 'xerces-wrapper'):
@@ -422,7 +423,10 @@ def check(ctx, case):
         raise RuntimeError('harness: no rc in %r' % (r.fields[:4],))
     if rc != '0' and not err.strip():
         return {'what': 'error-without-message', 'rc': rc, 'sample': sample}
-    if r.gets('f.rc') != '0' or (r.gets('f.out') or '') != '<ok>3</ok>':
+    if r.gets('g.rc') != rc:
+        # the same request, on the same transformer, a second time: the status is a function of the request
+        return {'what': 'second-run-status-differs', 'rc': rc, 'err': err[:200], 'g.rc': r.gets('g.rc'), 'g.err': (r.gets('g.err') or '')[:200], 'sample': sample}
+    if r.gets('f.rc') != '0' or (r.gets('f.out') or '') != FOLLOWUP_OUT:
         return {'what': 'transformer-unusable-after', 'rc': rc, 'err': err[:200], 'f.rc': r.gets('f.rc'), 'f.err': (r.gets('f.err') or '')[:200], 'f.out': (r.gets('f.out') or '')[:100], 'sample': sample}
     lk = leak_report(ctx, lambda drv: drv.call('transform', fields, **kw))
     if lk:
